@@ -98,6 +98,10 @@ def run(model, res, tier):
                         'date converters are summarised as serial(x) on date-time input (validated by C13)']
     res.trusted += ['hxsa abstract interpreter (absint.py) and its builtin models (absmodels.py)', 'CPython ast']
     kernel_rules(model, res, c)
+    res.rule('R5', 'the operands of a comparison are the values the references were given: 0, FALSE and empty text supplied by a listener are '
+             'those values, not blanks (shared with C10.R5)')
+    from . import c10
+    H.borrow(res, 'R5', 'supplied values', lambda tmp: c10.supplied_values_rules(model, tmp, c))
     acts = roles.binary_actions(g)
     # purity of the comparison path
     m, f = acts['logic']
